@@ -5,7 +5,7 @@
    panic; loops run on explicit fuel (MFuel = out of fuel, excluded by the
    theorems).  Per-byte decisions come from the generated tables of
    Facts_md.  The output is the concatenation of the writes.  No proofs here. *)
-From Verif Require Import Bytes Facts_md.
+From Verif Require Import Bytes IndexM Facts_md.
 Open Scope N_scope.
 
 Inductive mres :=
@@ -13,15 +13,6 @@ Inductive mres :=
 | MErr (code : N)        (* 1 = not closed HTML comment, 2 = not closed CDATA section *)
 | MFault                 (* index or slice out of range *)
 | MFuel.
-
-(* s[i] *)
-Definition get (s : bytes) (i : N) : option N := nth_error s (N.to_nat i).
-
-(* s[a:b]; None when not a <= b <= len s *)
-Definition slice (s : bytes) (a b : N) : option bytes :=
-  if (a <=? b) && (b <=? nlen s)
-  then Some (firstn (N.to_nat (b - a)) (skipn (N.to_nat a) s))
-  else None.
 
 Fixpoint prefix_of (p t : bytes) : bool :=
   match p, t with
@@ -43,9 +34,6 @@ Definition md_kind (a : bool) (c : N) : N :=
   | Some k => k
   | None => 0
   end.
-
-Definition assoc_list (l : list (N * list N)) (c : N) : list N :=
-  match assoc_get l c with Some x => x | None => [] end.
 
 (* the blank case: true = esc := nbsp, false = continue.  None = fault. *)
 Definition md_blank_nbsp (s : bytes) (i c : N) : option bool :=
